@@ -3,6 +3,7 @@ from fractions import Fraction
 
 from oracle import defs as D
 from rules.core import (copy_root, NotATable, tbl_eval, fold, op_local, callee_name, find_fn_suffix, AnchorMissing)
+from rules.core import rvalue_expr, strip_casts
 
 WF = "lexical_write_float::"
 
@@ -234,3 +235,75 @@ def rule_grisu(col, facts):
     uncovered = [e for e in range(lo_e, hi_e + 1) if not any(-60 <= e + b + 64 <= -32 for b in be_of)]
     col.check(R, "cached-power-coverage", not uncovered and -60 in consts and -32 in consts,
               "binary exponents %s have no cached power with -60 <= e+binexp+64 <= -32: the search loop walks out of the table" % uncovered[:5], cg.loc())
+
+
+def rule_dragonbox_integer_window(col, facts):
+    """TBL-range (endpoint integrality): in compute_nearest_normal the left endpoint `x` of the rounding
+    interval is tested for being an integer only when FC_PM_HALF_LOWER <= e <= DIV_BY_5_THRESHOLD; outside
+    that window the code *assumes* it is not.  x = (2f - 1) * 2^(e-1) * 10^(-k) with k = floor_log10_pow2(e)
+    - kappa: for k <= 0 it is an integer iff e - 1 - k >= 0; for k > 0 iff 5^k divides the odd number 2f - 1
+    < 2^(p+1), which is possible as long as 5^k < 2^(p+1).  The window must contain every exponent where an
+    integer is possible, otherwise an even significand whose lower boundary is a short decimal is printed
+    with more digits than the shortest (8.55e21 -> 16 digits)."""
+    from rules.pathmodel import Model, Shape, Panic
+    if facts.config.startswith("compact"):
+        return
+    R = "TBL-range"
+    WFA = "lexical_write_float::algorithm::"
+    helpers = {}
+    for n in ("floor_log5_pow2", "floor_log2_pow10", "floor_log10_pow2", "floor_log2"):
+        f = facts.fn(WFA + n, required=False)
+        if f is not None:
+            try:
+                helpers[WFA + n] = Model(f, "i32", helpers)
+            except (Shape, Panic):
+                pass
+    for fl, mant, kappa, emin, emax in (("f32", 23, 1, -149, 104), ("f64", 52, 2, -1074, 971)):
+        def k_of(e):
+            return D.floor_log10_pow2(e) - kappa if hasattr(D, "floor_log10_pow2") else ((e * 1262611) >> 22) - kappa
+        import math
+        def flog10p2(e):
+            # floor(e * log10(2)) exactly
+            from fractions import Fraction
+            # 2^e >= 10^q  <=> q <= e*log10 2 ; find q by integer comparison
+            q = int(math.floor(e * math.log10(2)))
+            while (Fraction(10) ** (q + 1)) <= Fraction(2) ** e:
+                q += 1
+            while (Fraction(10) ** q) > Fraction(2) ** e:
+                q -= 1
+            return q
+        possible = []
+        for e in range(emin, emax + 1):
+            k = flog10p2(e) - kappa
+            if k <= 0:
+                if e - 1 - k >= 0:
+                    possible.append(e)
+            else:
+                if 5 ** k < (1 << (mant + 2)):
+                    possible.append(e)
+        lo_need, hi_need = min(possible), max(possible)
+        vals = {}
+        for cname in ("FC_PM_HALF_LOWER", "DIV_BY_5_THRESHOLD"):
+            cf = facts.const_fn(WFA + "DragonboxFloat::" + cname)
+            try:
+                m = Model(cf, "i32", helpers, {"MANTISSA_SIZE": mant, "KAPPA": kappa})
+                vals[cname] = m.value([])
+            except (Shape, Panic) as ex:
+                col.bad(R, "%s:%s-shape" % (fl, cname), "cannot evaluate the constant's initialiser as integer arithmetic over MANTISSA_SIZE / KAPPA and the floor_log helpers (%s)" % ex, facts.const_loc(WFA + "DragonboxFloat::" + cname))
+        if len(vals) == 2:
+            col.check(R, "%s:FC_PM_HALF_LOWER" % fl, vals["FC_PM_HALF_LOWER"] <= lo_need,
+                      "= %d, but the left endpoint can already be an integer at exponent %d" % (vals["FC_PM_HALF_LOWER"], lo_need), facts.const_loc(WFA + "DragonboxFloat::FC_PM_HALF_LOWER"))
+            col.check(R, "%s:DIV_BY_5_THRESHOLD" % fl, vals["DIV_BY_5_THRESHOLD"] >= hi_need,
+                      "= %d, but up to exponent %d the odd number 2f - 1 < 2^%d can be divisible by 5^k (k = floor_log10_pow2(e) - %d): above the threshold the integer test is skipped and such floats are printed with more digits than the shortest round-tripping decimal" % (vals["DIV_BY_5_THRESHOLD"], hi_need, mant + 2, kappa), facts.const_loc(WFA + "DragonboxFloat::DIV_BY_5_THRESHOLD"))
+    # f32: the `is_integer` word of compute_mul_parity is the 32 bits below the parity bit
+    f = facts.fn("<f32 as lexical_write_float::algorithm::DragonboxFloat>::compute_mul_parity")
+    ok = False
+    for i, b in enumerate(f.blocks):
+        for st in b["s"]:
+            if st[0] == "=" and st[2][0] == "bin" and st[2][1] == "Eq":
+                e = rvalue_expr(f, st[2], 0)
+                x = e[2]
+                if isinstance(x, tuple) and x[0] == "cast" and x[2] == "u32" and strip_casts(x)[0] == "bin" and strip_casts(x)[1] == "Shr":
+                    ok = True
+    col.check(R, "f32:compute_mul_parity:is_integer-width", ok,
+              "the integer test of the f32 variant compares the whole 64-bit word `r >> (32 - beta)` with 0 instead of its low 32 bits (the fractional part): endpoints that are integers are never recognised", f.loc())
